@@ -91,16 +91,17 @@ def install_hash_tobytes():
     _saved['hash_args'] = orig
 
     def hash_args(*args):
-        out = []
+        # the REAL hash_args runs; symbolic arrays are replaced by float surrogates of the same shape whose entries encode the
+        # terms (equal terms <-> equal numbers), because ndarray.tobytes() of an object array would hash pointers
+        sur = []
         for arg in args:
             if isinstance(arg, np.ndarray) and arg.dtype == object:
-                out.append(hash(tuple((('t', v.a.get_id()) if v.c is None else ('c', v.c)) if isinstance(v, Sym) else ('v', v)
-                                      for v in arg.ravel())))
-            elif isinstance(arg, np.ndarray):
-                out.append(hash(arg.tobytes()))
+                flat = [float(hash((('t', v.a.get_id()) if v.c is None else ('c', v.c)) if isinstance(v, Sym) else ('v', v)) % (2 ** 52))
+                        for v in arg.ravel()]
+                sur.append(np.array(flat, dtype=np.float64).reshape(arg.shape))
             else:
-                out.append(hash(arg))
-        return tuple(out)
+                sur.append(arg)
+        return orig(*sur)
     gu.hash_args = hash_args
     for k, m in list(sys.modules.items()):
         if k.startswith('skfem') and m is not None and getattr(m, 'hash_args', None) is orig:
@@ -111,7 +112,7 @@ def install_all():
     install_exact_quadrature()
     install_invF_float_fold()
     install_hash_tobytes()
-    return ['ndarray.tobytes inside hash_args for object arrays -> structural key of the flattened terms (shape not included, as in float)',
+    return ['hash_args: symbolic arrays are replaced by float surrogate arrays of the same shape encoding the terms; the real hash_args then runs',
             'get_quadrature -> same tables lifted to exact rationals (object arrays)',
             'MappingIsoparametric.invF on fully numeric input -> executed in float64, result lifted']
 
